@@ -96,7 +96,11 @@ def check_image(ctx, data):
                          'part_offset>0' if offset else 'part_offset=0'), 'got %r want %r' % ((ec, eh, es), want_end), fatal=False)
         sc, sh, ss = p['start_chs']
         want_start = (offset // (heads * secs), (offset // secs) % heads, offset % secs + 1)
-        if (sc, sh, ss) != want_start:
+        if want_start[0] > 1023:
+            ctx.probes['start_cylinder_beyond_chs'] += 1      # not encodable in 10 bits; no convention is demanded
+        elif (sc, sh, ss) != want_start:
+            if want_start[0] > 255:
+                ctx.probes['start_cylinder_needs_high_bits'] += 1
             ctx.violate(('mbr/start-chs',), 'got %r want %r' % ((sc, sh, ss), want_start), fatal=False)
     if h.get('mbr_id') is not None:
         if hy.mbr['disk_id'] != h['mbr_id']:
